@@ -609,6 +609,23 @@ def consumer_correspondence(chk, variant, n):
         if mf is not None and n_fail > mf:
             chk.violation(f"{prop}:unit.execute:more-failing-scenarios-yielded-than-max_failures",
                           f"{n_fail} failing scenarios yielded with max_failures={mf}", replay)
+        # SV.Props.C11.consumer_interrupt_is_final / consumer_interrupt_at_most_once on the real stream: when no worker
+        # reported an Interrupted, every Interrupted in the stream is the consumer's own: at most one, the stop flag is
+        # set, and nothing but the two closing events follows it (INTERRUPTED once any event had been consumed)
+        if prop == "C11" and not any(i["k"] == "got" and i["e"]["k"] == "interrupted" for i in used) \
+                and not any(e["k"] == "KeyboardInterrupt-escaped" for e in real):
+            pos = [j for j, e in enumerate(real) if e["k"] == "interrupted"]
+            if pos:
+                tail = real[pos[0] + 1:]
+                consumed = any(i["k"] == "got" for i in used)
+                ok_tail = tail == [] or (len(tail) == 2 and tail[0]["k"] == "suiteFinished" and tail[1]["k"] == "phaseFinished"
+                                         and tail[0]["st"] == tail[1]["st"]
+                                         and (not consumed or tail[0]["st"] == "interrupted"))
+                if len(pos) > 1 or not ctl["stop"] or not ok_tail:
+                    chk.violation(f"{prop}:unit.execute:consumer-Interrupted-is-not-final",
+                                  "the consumer's own Interrupted must appear at most once, with the stop flag set, and be "
+                                  f"followed only by the closing events of an INTERRUPTED phase; stream {[e['k'] for e in real]}, "
+                                  f"stop flag {ctl['stop']}", replay)
         # the loop must not be left (no stop / limit / Ctrl-C) while a worker is alive or events are still queued
         last = used[-1] if used else None
         left_early = (closing and not ctl["stop"] and not ctl["limit"] and last is not None and last["k"] == "empty"
